@@ -41,6 +41,23 @@ def simplify_changes_stroke(adoc):
         ys = [p[1] for pl in pr + ps for p in pl]
         if not xs:
             continue
+        ext = max(max(xs) - min(xs), max(ys) - min(ys))
+        if ext < 2:
+            # outlines in small user units (magnified by an outer transform): the same question on a grid
+            # relative to the outline's own extent
+            n = 120
+            bx, by, st = min(xs), min(ys), ext / n
+            tot = diff = 0
+            for i in range(-2, n + 3):
+                for j in range(-2, n + 3):
+                    x, y = bx + (i + 0.31) * st, by + (j + 0.77) * st
+                    a = sum(wind(pl, x, y) for pl in pr) != 0
+                    b = sum(wind(pl, x, y) for pl in ps) != 0
+                    tot += a or b
+                    diff += a != b
+            if tot and diff * 20 > tot:      # more than 5% of the covered points change
+                return "small"
+            continue
         x0, x1, y0, y1 = int(min(xs)) - 1, int(max(xs)) + 2, int(min(ys)) - 1, int(max(ys)) + 2
         if (x1 - x0) * (y1 - y0) > 4000:
             continue
@@ -58,7 +75,10 @@ def simplify_changes_stroke(adoc):
 def classify(rec, v):
     if render.use_target_value_lost(rec["doc"]):
         return "C04/use-target-explicit-inherited-value-lost"
-    if simplify_changes_stroke(rec["doc"]):
+    sc = simplify_changes_stroke(rec["doc"])
+    if sc == "small":
+        return "C04/engine-silently-wrong/simplify-collapses-outlines-in-small-units"
+    if sc:
         return "C04/engine-silently-wrong/simplify-changes-the-stroke-outline"
     return "C04/" + v.split(":", 1)[1].split("@")[0]
 
@@ -102,18 +122,48 @@ def sharp_corner_family():
     return docs
 
 
+def micro_family():
+    """hairline strokes under magnification: the content is written in units 64 / 128 / 256 times
+    smaller inside one scale(k) group (doc.concretise "micro"), so stroke-widths are 0.004 .. 0.03 user
+    units - below the conversion's curve tolerance (0.016 for a 16-unit viewBox) - yet 1 or 2 units
+    wide once magnified.  The TLA+ semantics judges the equivalent unscaled document."""
+    docs = []
+    shapes = (("rect", [3, 3, 8, 7, -1, -1]), ("polygon", [3, 3, 12, 3, 12, 11]),
+              ("polyline", [2, 13, 14, 13, 14, 3]), ("line", [2, 8, 14, 8]))
+    for k in (64, 128, 256):
+        for tag, g in shapes:
+            for w in (1, 2):
+                for extra in ([], [["stroke-linecap", "square", 0]], [["stroke-linejoin", "bevel", 0]],
+                              [["stroke-dasharray", [3, 2], 0]], [["stroke-opacity", 1, 0]]):
+                    for where in ("own", "group"):
+                        st = [["stroke", "red", 0], ["stroke-width", w, 1 if where == "own" and w == 2 else 0]] + extra
+                        shape = {"d": 1, "tag": tag, "id": "", "g": g, "ref": "",
+                                 "at": [["fill", "blue" if tag in ("rect", "polygon") else "none", 0]]}
+                        if where == "own":
+                            shape["at"] += st
+                            nodes = [shape]
+                        else:
+                            shape["d"] = 2
+                            nodes = [{"d": 1, "tag": "g", "id": "", "at": st, "g": [], "ref": ""}, shape]
+                        docs.append({"vb": [0, 0, 16, 16], "view": [0, 0, 16, 16], "root": [], "micro": k,
+                                     "nodes": nodes})
+    return docs
+
+
 def run(out, tier):
     wd = common.workdir("c04")
     try:
         recs, texts, verdicts = render.run_render(out, "C04", "stroke", tier, 420, 1500, wd=wd, max_nodes=5,
                                                   module="TraceStroke", cfg="TraceStroke.cfg",
-                                                  extra_docs=sharp_corner_family())
+                                                  extra_docs=sharp_corner_family() + micro_family())
         cov = out.coverage
         cov["distinct_nontrivial"] = cov["parts"]["verdict_histogram"].get("ok:stroke", 0)
         cov["rule"] = ("documents drawn by TLC -simulate from Build.tla (Focus=stroke: stroke, stroke-width 1/2/4, "
                        "linecap butt/round/square, linejoin miter/round/bevel, miterlimit 1/4/10, dash arrays of odd "
                        "and even length, dash offsets incl. negative, stroke-opacity, own or inherited from groups, "
-                       "as attribute or style, under catalogue transforms incl. non-uniform scaling); non-trivial = "
+                       "as attribute or style, under catalogue transforms incl. non-uniform scaling; plus a sharp-corner family, "
+                       "an instance-opacity family and a hairline family: widths below the curve tolerance inside "
+                       "scale(64/128/256), written by the concretiser's micro mode); non-trivial = "
                        "a stroke layer is painted, the document is in the property's scope and TLC compared stacks "
                        "at every sample point where all source layers are decided (in / out, not band)")
         for (svg, res), v in zip(texts, verdicts):
